@@ -317,7 +317,7 @@ func (w *Worker) runPath(harness *ssa.Function, prefix []int) (ex *Exec, end pat
 		mutexes: map[*Value]*mutexState{}, wgs: map[*Value]*wgState{},
 		reached: map[string]bool{}, assumes: map[string]bool{}, hashSyms: map[string]*Term{}, wfShard: map[string]int{},
 		errCodes: map[*Value]int{}, stubsHit: map[string]bool{}, funcsHit: map[*ssa.Function]bool{},
-		tracked: map[string]Value{}, cfg: map[string]int64{},
+		tracked: map[string]Value{}, cfg: map[string]int64{}, posHits: map[string]int{},
 		maxVisits: e.maxVisits, clock: 1600000000 * 1e9}
 	w.solverFresh = true
 	defer func() {
